@@ -691,6 +691,12 @@ class Interp:
                     return o
                 raise OutOfFragment('std::get<%s> on a variant that holds %s: throws std::bad_variant_access at %s' % (n['targs'][0], o['__cls__'], fn.loc(n)))
             return NOT_HANDLED
+        if k == 'CallExpr' and cs == 'std::is_sorted' and len(n.get('args', [])) in (1, 2):
+            a_ = [self.eval(fn, S[a], env) for a in n['args']]
+            seq = a_[0] if len(a_) == 1 and isinstance(a_[0], list) else (a_[0][1][a_[0][2]:a_[1][2]] if len(a_) == 2 and all(isinstance(x, tuple) and len(x) == 3 and x[0] == 'it' for x in a_) and a_[0][1] is a_[1][1] else None)
+            if seq is None:
+                raise OutOfFragment('std::is_sorted form at %s' % fn.loc(n))
+            return all(not (seq[i + 1] < seq[i]) for i in range(len(seq) - 1))
         if k == 'CallExpr' and cs == 'std::erase_if' and len(n.get('args', [])) == 2:
             o, lam = (self.eval(fn, S[a], env) for a in n['args'])
             if isinstance(o, list):
